@@ -27,14 +27,14 @@ E == Traces[tix].events
 
 Init == \E i \in 1..Len(Traces) :
           /\ tix = i /\ pos = 1 /\ bad = <<>> /\ fin = FALSE
-          /\ D!Init0(Traces[i].g, Traces[i].bytes, [v |-> Traces[i].v, ws |-> Traces[i].ws, nl |-> Traces[i].nl])
+          /\ D!Init0(Traces[i].g, Traces[i].bytes, [v |-> Traces[i].v, ws |-> Traces[i].ws, nl |-> Traces[i].nl, cat |-> Traces[i].cat])
 
 \* which spec events the real parser makes observable: everything in verbose mode; the functor observers and the
 \* two non-verbose messages always
 \* (with the no-stream overloads or a std::ostream the harness sees only the functor observers: sk # 0)
 Visible(e) == /\ e[1] # "tau"
-              /\ IF Traces[tix].sk = 0 THEN (opt.v \/ e[1] \in {"tval", "call", "dcall", "lexcall", "synerr", "unexp"})
-                 ELSE e[1] \in {"tval", "call", "dcall", "lexcall"}
+              /\ IF Traces[tix].sk = 0 THEN (opt.v \/ e[1] \in {"tval", "call", "dcall", "ccall", "lexcall", "synerr", "unexp"})
+                 ELSE e[1] \in {"tval", "call", "dcall", "ccall", "lexcall"}
 Match(e, x) == e[1] = x[1] /\ Len(e) = Len(x) /\ e = x
 
 Step ==
@@ -63,6 +63,9 @@ FinalProblems ==
   ELSE IF Traces[tix].threw # "" THEN <<"threw", Traces[tix].threw>>
   ELSE IF Traces[tix].partial # "" THEN <<"partial-line", Traces[tix].partial>>
   ELSE IF (status = "acc") # Traces[tix].ok THEN <<"verdict", status>>
+  \* C13: mutations made through a non-const context are visible to the caller: one per contextual functor call
+  ELSE IF Traces[tix].cat # 0 /\ Traces[tix].ctxmut # (IF Traces[tix].cat = 2 THEN 0 ELSE Cardinality({i \in 1..Len(nodes) : nodes[i].k = 1 /\ D!IsCtx(nodes[i].sym)}))
+       THEN <<"context-mutations", Traces[tix].ctxmut>>
   ELSE IF status = "acc" /\ ~TreeOK THEN <<"tree", vals>>
   ELSE <<>>
 
